@@ -15,7 +15,10 @@ refuses such a value exactly as `serialize()` raises on such an object.
 Parameters (third-party primitives): SHA3-256, RIPEMD-160, the comparer transform of `sort()`, and UTF-8
 validity of a byte string (`bytes.decode('utf8')`).
 
-Not modelled: `type_rule_overrides` (AccountDescriptorRepository); values that Python accepts by duck typing
+`type_rule_overrides` (the optional second argument of the two `TransactionFactory` constructors, built by the
+facades from an AccountDescriptorRepository) are the field `Config.overrides`: arbitrary converters keyed by class.
+
+Not modelled: values that Python accepts by duck typing
 although no SDK documentation offers them (a `str`, `dict`, `tuple` or `bytes` where a list is expected; a
 `list`/`dict` whose `len()` happens to equal the size of a byte array). Core Lean only.
 -/
@@ -61,6 +64,8 @@ inductive E
   | badLength (expected found : Nat)
   | badForm (what : String)
   | autofill (why : String)
+  /-- raised by a `type_rule_overrides` converter -/
+  | overrideRaised (why : String)
   | sort (e : Codec.Err)
   | schema (why : String)
   deriving Repr, Inhabited, DecidableEq
@@ -71,6 +76,15 @@ structure Prims where
   ripemd160 : Bytes → Bytes
   transform : String → Bytes → Bytes
   validUtf8 : Bytes → Bool
+
+/-- the keys of `type_rule_overrides` are classes: of the generated module (`sc.Amount`) or of the SDK (`PublicKey`) -/
+inductive ClassRef
+  | module (name : String)
+  | sdk (name : String)
+  deriving DecidableEq, Repr, Inhabited
+
+/-- a converter of `type_rule_overrides`: any Python callable (it may raise) -/
+abbrev Conv := DVal → Except E DVal
 
 /-- what the two `TransactionFactory` classes and the facade fix (regenerated from the sources on every run) -/
 structure Config where
@@ -100,11 +114,22 @@ structure Config where
   idAutofill : Bool
   /-- nem `create`: transfer message hack -/
   messageHack : Bool
+  /-- the flags parser refuses a negative `int` before handing it to the `Flag` class (read from the source of
+      `add_flags_parser` on every run; without the guard Python's `Flag` takes a negative number as a complement) -/
+  flagsRejectNegative : Bool := false
+  /-- `type_rule_overrides.get(cls)` (the argument of the `TransactionFactory` constructor; empty on the default facade path) -/
+  overrides : ClassRef → Option Conv := fun _ => none
 
 /-! ### markers for ill-typed member contents -/
 
 /-- a member holding a Python value of the wrong class (schema type names never start with `<`) -/
 def rawMark : Val := .struct "<raw>" []
+
+/-- … an `int` where an object is expected -/
+def rawInt (i : Int) : Val := .struct "<raw>" [("int", .int i)]
+
+/-- … a byte string where an object (or an integer) is expected -/
+def rawBytes (b : Bytes) : Val := .struct "<raw>" [("bytes", .bytes b)]
 
 /-- a member holding a Python `str` (kept until somebody encodes it) -/
 def strMark (s : String) : Val := .struct "<str>" [("utf8", .bytes (ofString s))]
@@ -250,7 +275,9 @@ inductive Rule
   | enum (ty : String) (bitwise : Bool) (members : List (String × Int))
   | struct (ty : String) (d : StructDef)
   | array (elem : String)
-  deriving Repr, Inhabited
+  /-- `add_pod_parser` found the class among the `type_rule_overrides`: the override *is* the rule -/
+  | override (f : Conv)
+  deriving Inhabited
 
 def ruleOf (cfg : Config) : Slot → Rule
   | .int .. => .noRule
@@ -258,10 +285,18 @@ def ruleOf (cfg : Config) : Slot → Rule
   | .array elem => if cfg.arrayRules.contains elem then .array elem else .noRule
   | .ty ty =>
     match cfg.schema.find ty with
-    | some (.int w s) => .podInt ty w s
+    | some (.int w s) =>
+      -- `autodetect`: add_pod_parser(class name, module class)
+      match cfg.overrides (.module ty) with
+      | some f => .override f
+      | none => .podInt ty w s
     | some (.bytes _) =>
+      -- `_build_rules`: add_pod_parser(name, SDK class) for the names of `sdk_type_mapping` only
       match cfg.sdkMapping.find? (·.1 == ty) with
-      | some (_, k) => .sdkBytes ty k
+      | some (_, k) =>
+        (match cfg.overrides (.sdk k) with
+         | some f => .override f
+         | none => .sdkBytes ty k)
       | none => .noRule
     | some (.enum _ _ b ms) => .enum ty b ms
     | some (.struct d) => if cfg.structRules.contains ty then .struct ty d else .noRule
@@ -351,10 +386,10 @@ def fits (cfg : Config) (slot : Slot) (cls : String) : Bool :=
 
 /-- member state after `setattr(entity, key, value)` (and, at the top level, `_auto_encode_strings`) -/
 def place (cfg : Config) (top : Bool) (slot : Slot) : DVal → Val
-  | .int i => match slot with | .int .. => .int i | _ => rawMark
-  | .bytes b => match slot with | .barray => .bytes b | _ => rawMark
+  | .int i => match slot with | .int .. => .int i | _ => rawInt i
+  | .bytes b => match slot with | .barray => .bytes b | _ => rawBytes b
   | .str s =>
-    if top then (match slot with | .barray => .bytes (ofString s) | _ => rawMark) else strMark s
+    if top then (match slot with | .barray => .bytes (ofString s) | _ => rawBytes (ofString s)) else strMark s
   | .codec cls v => if fits cfg slot cls then v else rawMark
   | .none => .none
   | _ => rawMark
@@ -381,6 +416,21 @@ def sdkBytesOf (cfg : Config) (k : String) : DVal → Except E Bytes
       | some b => if sdkSize cfg k == b.length then .ok b else .error (.badLength (sdkSize cfg k) b.length)
   | _ => .error (.badForm "not bytes, str or SDK object")
 
+/-- what `lookup_value` / `copy_to` make of the result `r` of an override: a list goes through the type converter item
+    by item (and is then `extend`ed onto the member), anything else through the type converter as a whole -/
+def settle (cfg : Config) (top : Bool) (slot : Slot) : DVal → Except E Val
+  | .list items =>
+    match items.mapM (convertPlace cfg false slot) with
+    | .ok vs => .ok (.arr vs)
+    | .error e => .error e
+  | r => convertPlace cfg top slot r
+
+/-- `rules[hint](value)` for an overridden rule: the override sees the descriptor value as it is -/
+def applyOverride (cfg : Config) (top : Bool) (slot : Slot) (f : Conv) (dv : DVal) : Except E Val :=
+  match f dv with
+  | .error e => .error e
+  | .ok r => settle cfg top slot r
+
 /-- rule + type converter on a value that is neither a list nor a dict -/
 def coerceAtom (cfg : Config) (top hinted : Bool) (slot : Slot) (dv : DVal) : Except E Val :=
   match (if hinted then ruleOf cfg slot else .noRule) with
@@ -399,6 +449,7 @@ def coerceAtom (cfg : Config) (top hinted : Bool) (slot : Slot) (dv : DVal) : Ex
     | .str s => enumByName ty bitwise members s
     | .int i =>
       if bitwise then
+        if cfg.flagsRejectNegative && i < 0 then .error (.enumValue ty i) else
         (match flagOfInt members i with
          | some v => .ok (.int v)
          | none => .error (.enumValue ty i))
@@ -406,6 +457,7 @@ def coerceAtom (cfg : Config) (top hinted : Bool) (slot : Slot) (dv : DVal) : Ex
     | _ => convertPlace cfg top slot dv
   | .struct .. => .error (.badForm "not a dict for a struct")
   | .array _ => .error (.badForm "not a list for an array")
+  | .override f => applyOverride cfg top slot f dv
 
 /-! ### `copy_to` -/
 
@@ -431,14 +483,18 @@ mutual
     (`hinted = false`: the elements of an array whose element type has no registered array parser) -/
 def coerce (cfg : Config) (top hinted : Bool) (slot : Slot) : DVal → Except E Val
   | .list l =>
-    match slot with
-    | .array elem =>
-      match coerceItems cfg (hinted && cfg.arrayRules.contains elem) (.ty elem) l with
-      | .ok vs => .ok (.arr vs)
-      | .error e => .error e
-    | _ => .error (.notExtendable "list for a member that is no array")
+    match (if hinted then ruleOf cfg slot else .noRule) with
+    | .override f => applyOverride cfg top slot f (.list l)
+    | _ =>
+      match slot with
+      | .array elem =>
+        match coerceItems cfg (hinted && cfg.arrayRules.contains elem) (.ty elem) l with
+        | .ok vs => .ok (.arr vs)
+        | .error e => .error e
+      | _ => .error (.notExtendable "list for a member that is no array")
   | .dict kvs =>
     match (if hinted then ruleOf cfg slot else .noRule) with
+    | .override f => applyOverride cfg top slot f (.dict kvs)
     | .struct ty d =>
       match freshMembers cfg.schema ty with
       | .error e => .error e
@@ -465,7 +521,7 @@ def coerceItems (cfg : Config) (hinted : Bool) (slot : Slot) : List DVal → Exc
     | .ok v =>
       match coerceItems cfg hinted slot rest with
       | .error e => .error e
-      | .ok vs => .ok (v :: vs)
+      | .ok vs => .ok ((match v with | .arr _ => rawMark | w => w) :: vs)
 
 /-- `TransactionDescriptorProcessor.copy_to(entity, ['type'] if top else None)` -/
 def copyEntries (cfg : Config) (ty : String) (d : StructDef) (top : Bool) : List (String × DVal) → St → Except E St
